@@ -423,6 +423,27 @@ func (c *P2Harness) Define(api frontend.API) error {
 	return nil
 }
 
+// Operands known at compile time (constants), alone and mixed with a variable: the gadget must still return the reference hash.
+type PConstHarness struct {
+	X   frontend.Variable
+	Out [6]frontend.Variable
+}
+
+func (c *PConstHarness) Define(api frontend.API) error {
+	hs := []frontend.Variable{
+		abstractor.Call(api, poseidon.Poseidon2{In1: 3, In2: 5}),
+		abstractor.Call(api, poseidon.Poseidon2{In1: 0, In2: 0}),
+		abstractor.Call(api, poseidon.Poseidon1{In: 7}),
+		abstractor.Call(api, poseidon.Poseidon1{In: 0}),
+		abstractor.Call(api, poseidon.Poseidon2{In1: 11, In2: c.X}),
+		abstractor.Call(api, poseidon.Poseidon2{In1: c.X, In2: 0}),
+	}
+	for i, h := range hs {
+		api.AssertIsEqual(h, c.Out[i])
+	}
+	return nil
+}
+
 type P1Harness struct{ A, Out frontend.Variable }
 
 func (c *P1Harness) Define(api frontend.API) error {
@@ -566,6 +587,8 @@ func circuitOf(j *job) frontend.Circuit {
 		return &P2Harness{}
 	case "poseidon1":
 		return &P1Harness{}
+	case "poseidon_const":
+		return &PConstHarness{}
 	case "poseidon_multi":
 		return &PMultiHarness{}
 	case "rmod": // a = nbits
